@@ -4,6 +4,7 @@ from __future__ import annotations
 from hypothesis import strategies as st
 
 from .. import gen, ref
+from ..gen import prob
 from ..build import Ctx, J, T, make_graph
 from ..core import Violation
 from ..observe import run_async, run_sync
@@ -33,7 +34,7 @@ def _case(draw, max_nodes):
     c = draw(gen.g1_case(2, max_nodes))
     c["sched"] = draw(st.lists(st.integers(0, 7), max_size=24))
     # optional non-conflicting injection of an intermediate value (only consulted when the validator accepts it)
-    c["inject"] = draw(st.booleans()) and draw(st.floats(0, 1)) < 0.3
+    c["inject"] = draw(st.booleans()) and prob(draw, 0.3)
     c["inject_pick"] = draw(st.integers(0, 31))
     return c
 
